@@ -223,6 +223,15 @@ TRUSTED = ['json.load(json.dump(x)) == x on JSON-able values (tuples read back a
            'inference_state_as_method_param_cache is a transparent memo per inference state']
 
 
+def _standin(repo, seed, tier):
+    from pyvc.standin import run_standin
+    return run_standin('C20', tier, seed, repo)
+
+
+_standin.tiers = ('quick', 'thorough')
+BOUNDED = [_standin]
+
+
 def dynamic_contracts(repo):
     """the lookup itself runs on the path it was given (contract shared with C12)"""
     from contracts import c12
